@@ -17,5 +17,6 @@ INVARIANTS
   InvImplEqSpec
   InvUnshuffle
   InvCodec
+  InvFlip
 CONSTRAINT EmitCase
 CHECK_DEADLOCK FALSE
